@@ -21,7 +21,8 @@ def run(tier):
 
     skip = [l for l in skip if all(l in alone[m] for m in masks)]
     if len(R) < 20:
-        raise common.HarnessError("only %d of %d representative lines are accepted alone under all option sets" % (len(R), len(lines)))
+        v.violation({"key": "representative lines", "fam": "precondition"}, "precondition:valid-lines-rejected", "only %d of %d representative lines are accepted alone under all option sets" % (len(R), len(lines)))
+        return v.finish()
 
     # (1) all ordered pairs (state leak l1 -> l2), default options; thorough: all three masks
     items, meta = [], []
